@@ -288,7 +288,28 @@ def gen(rng, idx, tier):
         # lib keys, here split so that some names are listed by the second master only
         stratum = "interpolatable"
         delivery = "ufolibs"
+    hand = None
+    if fmt == "ttf" and stratum == "static" and rng.random() < 0.12:
+        simple_skipped = [g["name"] for g in glyphs if g["name"] in skip and g["contours"]
+                          and not g["components"]]
+        if simple_skipped:
+            glyphs.append({"name": "hd.x", "width": 555, "unicodes": [], "contours": [], "anchors": [],
+                           "components": [{"base": simple_skipped[0], "t": [1, 0, 0, 1, 30, 0]}]})
+            if "public.openTypeCategories" in lib:
+                lib["public.openTypeCategories"]["hd.x"] = "base"
+            stratum, delivery = "interpolatable", "dslib"
+    if stratum == "interpolatable" and fmt == "ttf":
+        by_ = {g["name"]: g for g in glyphs}
+        cands_ = [(g["name"], g["components"][0]["base"]) for g in glyphs
+                  if not g["contours"] and len(g["components"]) == 1
+                  and list(g["components"][0]["t"][:4]) == [1, 0, 0, 1]
+                  and g["components"][0]["base"] in skip and g["name"] not in skip
+                  and by_[g["components"][0]["base"]]["contours"]
+                  and not by_[g["components"][0]["base"]]["components"]]
+        if cands_ and rng.random() < 0.6:
+            hand = list(rng.choice(cands_))
     return {"stratum": stratum, "fmt": fmt, "lib": rng.choice(["defcon", "ufoLib2"]),
+            "hand_drawn_in_second_master": hand,
             "skip": skip, "delivery": delivery, "only_skipped_categorised": only_skipped_categorised,
             "ufo_lib_decoy": ([rng.choice([n for n in names if n not in skip] or names)]
                               if delivery == "dslib" and rng.random() < 0.5 else None),
@@ -347,6 +368,9 @@ def compile_pair(case, with_skip):
         tt = ufo2ft.compileOTF(font, **kw) if case["fmt"] == "otf" else ufo2ft.compileTTF(font, **kw)
         fonts = [tt]
     else:
+        hd = case.get("hand_drawn_in_second_master")
+        if hd:
+            kw["convertCubics"] = False
         if case.get("ufo_lib_decoy") and case["delivery"] == "dslib":
             # on the designspace paths only the designspace lib counts: a list in a master's
             # own lib is ignored, with and without a designspace list
@@ -358,6 +382,16 @@ def compile_pair(case, with_skip):
               "sources": [{"ufo": 0, "location": {"Weight": 400}, "name": "m0"},
                           {"ufo": 1, "location": {"Weight": 700}, "name": "m1"}],
               "lib": {"public.skipExportGlyphs": list(skip)} if with_skip else {}}
+        if hd:
+            # glyph X refers to the non-exported glyph S in the first master but is DRAWN (S's
+            # outline at the same place) in the second one
+            x_, s_ = hd
+            m1 = {g["name"]: g for g in ds["ufos"][1]["glyphs"]}
+            comp = m1[x_]["components"][0]
+            dx, dy = comp["t"][4], comp["t"][5]
+            m1[x_]["contours"] = [[[p[0] + dx, p[1] + dy] + list(p[2:]) for p in c]
+                                  for c in m1[s_]["contours"]]
+            m1[x_]["components"] = []
         if case["delivery"] == "ufolibs":
             ds["lib"] = {}
             if with_skip:
@@ -688,6 +722,8 @@ def run(case):
     bump("ttf_cases" if case["fmt"] == "ttf" else "otf_cases")
     if case["delivery"] == "both":
         bump("arg_overrides_lib")
+    if case.get("hand_drawn_in_second_master"):
+        bump("glyph_composite_in_one_master_drawn_in_the_other")
     if case.get("ufo_lib_decoy") and case["delivery"] == "dslib":
         bump("designspace_paths_with_a_skip_list_in_a_master_lib_only")
     if case.get("only_skipped_categorised"):
